@@ -531,6 +531,7 @@ type feeObs struct {
 	Coll    string   `json:"coll"`  // fee collector increase
 	MsgUsed []uint64 `json:"msg_used"`
 	Bal0    string   `json:"bal0"`
+	Coll0   string   `json:"coll0"`
 	Moved   string   `json:"moved"`
 	Evm     []feeEvm `json:"evm,omitempty"`
 	Intr    []uint64 `json:"intr,omitempty"`
@@ -629,6 +630,7 @@ func (e *feeEnv) runTx(t feeTx) (o feeObs) {
 	net := new(big.Int).Sub(b0, b1)
 	net.Sub(net, moved)
 	o.Bal0, o.Moved, o.Net, o.Coll = b0.String(), moved.String(), net.String(), new(big.Int).Sub(c1, c0).String()
+	o.Coll0 = c0.String()
 	o.RawCode = res.Code
 	antePassed := seq1 != seq0
 	switch {
@@ -824,7 +826,7 @@ func (t feeTx) coq(o feeObs) string {
 		if t.Tip != nil {
 			tip = "(Some " + coqZs(*t.Tip) + ")"
 		}
-		return fmt.Sprintf("(CosmosTx %s %s %s)", coqZu(t.Gas), coqList(fs), tip)
+		return fmt.Sprintf("(CosmosTx %s %s %s %s)", coqZu(t.Gas), coqList(fs), tip, coqZs(t.Send))
 	}
 	ms, es := []string{}, []string{}
 	for _, m := range t.Msgs {
@@ -849,7 +851,7 @@ func (p feeParams) coq() string {
 	if p.NoBase {
 		base = "0"
 	}
-	return fmt.Sprintf("(mkparams %s %s %s true)", coqZs(p.Mgp), coqZs(base), coqZs(p.Mult))
+	return fmt.Sprintf("(mkparams %s %s %s 5%%Z)", coqZs(p.Mgp), coqZs(base), coqZs(p.Mult))
 }
 
 // ---------------------------------------------------------------- one case
@@ -874,7 +876,7 @@ func feesRunCase(id string, in feeInput) Case {
 	for i, t := range in.Txs {
 		o := e.runTx(t)
 		obs = append(obs, o)
-		steps = append(steps, fmt.Sprintf("(%s, %s, %s)", coqZs(o.Bal0), t.coq(o), o.coq()))
+		steps = append(steps, fmt.Sprintf("(%s, %s, %s, %s)", coqZs(o.Bal0), coqZs(o.Coll0), t.coq(o), o.coq()))
 		m, b := feeOracle(in.Params, t, o)
 		if m != "" && msgAll == "" {
 			msgAll = fmt.Sprintf("tx %d: %s", i, m)
